@@ -1,5 +1,5 @@
 #!/usr/bin/env python3
-"""mutants.py <n> <seed> [minutes]
+"""mutants.py <n> <seed> [minutes] [file regex]
 A small mutation campaign as a sensitivity measurement of the checks (complements the hand-made and agent-made changes
 under /verif/seeded): one-token changes of the emulator's non-test code (operator swaps, off-by-one constants, a dropped
 statement) are applied in a scratch worktree (/tmp/wt/mut); a mutant that still compiles and passes the 226 tests is
@@ -86,9 +86,16 @@ def sites(path):
             break
     out = []
     hook = False
+    block = False
     for i in range(end):
         l = lines[i]
         s = l.strip()
+        if '/*' in l and '*/' not in l:
+            block = True
+        if block:
+            if '*/' in l:
+                block = False
+            continue
         if 'koge29_verif' in l:
             hook = True      # a hook item follows: skip until the next blank line
         if hook:
@@ -116,6 +123,8 @@ def sites(path):
 
 
 files = [f for f in glob.glob(WT + '/src/**/*.rs', recursive=True) if not f.endswith(('testhelper.rs', 'verif_hooks.rs', 'main.rs', 'setting.rs', 'registers.rs'))]
+if len(sys.argv) > 4:
+    files = [f for f in files if re.search(sys.argv[4], f)]
 files.sort()
 rng = random.Random(SEED)
 # weight per file: sqrt of its number of sites, so that the big mov files do not take everything
